@@ -41,6 +41,8 @@ class Derive(Stream):
         import re
         if Derive._n % 2 == 1 and re.fullmatch(r"imsi-[0-9]{5,15}", str(c.get("supi", ""))):
             d["via"] = "createue"
+        elif Derive._n % 4 == 2:
+            d["via"] = "literal"          # a UE context built as a struct literal, not by NewRanUeContext
         return d
 
     def classify(self, c, o):
